@@ -12,22 +12,73 @@ NOTE = ("Trusted: rustc, Kani->CBMC translation, CBMC/SAT, Verus/Z3/vstd, the RF
 
 # property -> (category, text, design_ref) ; only properties listed here are claimed
 CLAIMED = {
-    "C14": ("proof", "Finite, loop-free functions (code tables, repeat-offset machine, block/frame/literals/sequence headers) are "
-                     "proved against RFC-transcribed spec functions over their entire input domains by Kani contracts; encoder/decoder "
-                     "inverse pairs are two-contract lemmas.", "DESIGN.md 3.2, 4 C14"),
+    "C01": ("proof", "Partial, per stage: every stage of the decode path carries a machine-checked contract on the real code - headers and code tables "
+            "against RFC-transcribed specs over their whole domains (Kani: H1 H2 H3 H5 H6 H7 S1 S2 F1 F2c HU2), and unbounded Verus proofs on verbatim bodies "
+            "for the loop-carrying stages (BRR1 bit reader, F3 table description reader, Q1/Q2 table selection and sequence decoding, L1 literals, Q3 sequence "
+            "execution = RFC interleaving of literal runs and overlapping match copies with the repeat-offset machine, D0 match copy, B2 block slicing). "
+            "The composition of the stages into 'decode(frame) == original' is argued in DESIGN.md, not machine-checked; FSE table construction for "
+            "data-dependent distributions (F2) and Huffman table construction beyond the bound (HU1) are assumptions listed in the evidence.", "DESIGN.md 4 C01, Part II"),
+    "C02": ("proof", "Inverse pairs as two-contract lemmas on the real encoder/decoder functions (S1 value<->code, H1' block header, H6' sequence count, H7' modes byte, "
+            "E3 frame header, E8 literals-header widths), block decision logic (E4) and frame structure incl. reuse and read fragmentation (E5, bounded sizes), "
+            "matcher truthfulness (E7, bounded). Whole-pipeline 'decode(compress(x)) == x' is not claimed; libzstd is not consulted.", "DESIGN.md 4 C02"),
+    "C03": ("proof", "Every panic site on the decode path is a proof obligation: Verus (verbatim bodies, all input sizes) proves absence of index, overflow, shift, "
+            "slice and explicit panics plus termination for BRR1, F3, Q1/Q2, Q3, L1, B2, D0, R1; Kani proves the parsers total over their whole input domains "
+            "(H1 H2 H5 H6) and the raw-pointer ring buffer memory-safe from arbitrary invariant states at fixed capacities (R2 R3 R4). Callee preconditions are "
+            "discharged at call sites by construction (contract stubs / external_body). Unverified remainder listed in evidence (F2, HU1 beyond bound, dictionary parser).", "DESIGN.md 4 C03"),
     "C04": ("proof", "Four layers on the real code: R1 (Verus, verbatim bodies, ALL capacities) position arithmetic and drop-front queue semantics; "
                      "R2 (Kani, real raw pointers, one step from an ARBITRARY invariant state, hence all operation histories) queue semantics, "
                      "invariant and in-allocation accesses for every operation at fixed capacities; R3/R4 (Kani) the over-copying primitive stays "
                      "inside the regions it is given and every call site gives it regions inside initialised data / free space; D0 (Verus, all sizes) "
                      "the callers establish the unsafe preconditions and the overlapping match copy equals the RFC byte-at-a-time copy. "
                      "R2/R3/R4 are bounded in capacity / region size and listed as bounded.", "DESIGN.md 3.5, 4 C04"),
-    "C05": ("proof", "Q3 (Verus, verbatim execute_sequences, all sequence lists): Ok => a block appends at most 128 KiB, no counter overflow; H1 (Kani, all 2^24 "
-                     "headers): raw/RLE blocks regenerate at most 128 KiB; H4: window <= limit before the window reservation. Composition with the "
-                     "driver loop is argued in DESIGN.md, not machine-checked.", "DESIGN.md 4 C05"),
+    "C05": ("proof", "Q3 (Verus, verbatim execute_sequences, all sequence lists): on EVERY path a block appends at most 128 KiB (rejected before being expanded), no "
+                     "counter overflow; B2 (Verus): literals header capped, no-sequence path bounded; H1 (Kani, all 2^24 headers): raw/RLE blocks <= 128 KiB; "
+                     "FD1 (Kani, bounded): the byte budget is checked after every block; D2: window drains keep min(len, window); H4: window <= limit before "
+                     "the window reservation. The arithmetic composition is in DESIGN.md.", "DESIGN.md 4 C05"),
+    "C06": ("proof", "D1/D2 (Kani, real ring buffer at fixed capacities, arbitrary invariant start state, symbolic sink behaviour incl. partial acceptance and errors): "
+            "every drain path hands out a prefix of the queue in order, removes exactly the accepted bytes (also on the error path) and hashes exactly those; "
+            "FD1 (Kani, bounded): blocks strictly in order, exact byte accounting, strategy only decides when to return; FD7 accessors; Q3/D0 (Verus): decoding "
+            "reads the window only at distance <= offset. Schedule independence of the complete output is the composition argued in DESIGN.md.", "DESIGN.md 4 C06"),
+    "C07": ("proof", "FD5 (Verus, verbatim bodies, unbounded Vec sizes): DecoderScratch::reset establishes, from ANY prior state, exactly the state DecoderScratch::new "
+            "creates; all table reset/reinit functions; FD4 (Kani): FrameDecoder::reset/init install fresh per-frame fields whatever the previous state was "
+            "(arbitrary counters, flags, checksum, dictionary use), a rejected header leaves the old state; D2 reset; H4 reuse path.", "DESIGN.md 4 C07"),
+    "C08": ("proof", "D1/D2 (Kani): on every drain path the hasher ends in exactly the state of a fresh XXH64 hasher fed the bytes handed out (state equality, "
+            "twox-hash as reference), both ring segments, partial acceptance, errors; FD1: stored checksum = the 4 bytes after the last block, little-endian; "
+            "FD7: calculated checksum accessor; E5 (bounded): compressor re-seeds per frame, hashes exactly the bytes read, trailer = low 32 bits LE.", "DESIGN.md 4 C08"),
+    "C09": ("proof", "FD4 (Kani): dictionary selected by id, missing id is DictNotProvided, frame without id sees no dictionary, force_dict; FD5 (Verus): init_from_dict "
+            "installs exactly the dictionary's tables/offsets/content and reset removes all of it; D0 (Verus, unbounded): repeat_from_dict = match copy over "
+            "dict ++ window incl. straddling, error iff the offset reaches before the dictionary or the window has passed; S2/Q3: hostile zero offsets resolve "
+            "to the corrupt result. The dictionary parser (FD6) is not under contract.", "DESIGN.md 4 C09"),
+    "C10": ("proof", "Exact consumption per stage: H2 (frame header length == bytes taken, every truncation is an error), H1 (3 bytes), B2 (content_size bytes), FD1 "
+            "(Kani, bounded: counter == sum of header+body (+4 checksum), exactly those bytes leave the source, truncation at every cut point is an error and "
+            "never 'finished'), FD4/FD7 counters restart per frame, R2 extend_from_reader takes exactly n bytes. Multi-frame decode_all (FD3) is not under contract.", "DESIGN.md 4 C10"),
     "C11": ("proof", "Loop-free/constant-loop Kani proofs over all 256 window descriptors, all single-segment sizes, all limits and every "
                      "<= 20-byte header: exact boundary of the comparison, rejection carries (requested, limit), the reuse path reaches the "
                      "window reservation only with window <= limit (callee precondition via contract stub), clamp to the format maximum, "
                      "and every front end passes the configured limit on.", "DESIGN.md 3.2 H3/H4, 4 C11"),
+    "C12": ("proof", "F1 (Kani, complete for accuracy logs 5..=9): baseline/bit-count arithmetic equals RFC 4.1.1, states tile the table; F2c (Kani): the three predefined "
+            "tables built by the real code equal RFC Appendix A cell by cell; F3 (Verus, unbounded): description reader - range, sum == 2^al, termination; "
+            "Q2 (Verus): stepping stays inside a well-formed table, all bits consumed; F6 (Kani, bounded): encoder normalisation yields a valid distribution. "
+            "F2 (table construction for arbitrary distributions) and F5 (encoder tables == decoder tables) are NOT proved and are listed as assumptions.", "DESIGN.md 4 C12, Part II 9"),
+    "C13": ("proof", "L1 (Verus, unbounded): Huffman stepping stays inside a well-formed table, every literal consumes >= 1 bit (termination), stream split / jump table "
+            "arithmetic never panics, exactly regenerated_size literals; HU1/HU2 (Kani, BOUNDED: 3 weights <= 3; 1..=9 direct weights): rejection clauses and canonical "
+            "table of RFC 4.2.1. The encoder side (HU4: prefix code, depth <= 11, description round trip) is not under contract.", "DESIGN.md 4 C13"),
+    "C14": ("proof", "Finite, loop-free functions (code tables, repeat-offset machine, block/frame/literals/sequence headers) are "
+                     "proved against RFC-transcribed spec functions over their entire input domains by Kani contracts; encoder/decoder "
+                     "inverse pairs are two-contract lemmas; E8 (Verus) literals-header field widths on the encoder side.", "DESIGN.md 3.2, 4 C14"),
+    "C15": ("proof", "E4 (Kani, bounded sizes, symbolic contents): per block header/payload consistency, RLE only for constant blocks, raw fallback, cost <= 3 + length, "
+            "compressed strictly smaller; E5 (bounded): frame structure, one last block, empty final block for exact multiples, nothing after the trailer; "
+            "E3 (complete): emitted frame header parses back with a legal window >= the matcher's; H1' block header inverse; E8 literal header widths; "
+            "E7 (bounded): offsets within window and produced data.", "DESIGN.md 4 C15"),
+    "C16": ("proof", "Obligations of the block encoder under an assumed well-behaved matcher: S1 encoder maps total over the whole value ranges (unreachable! arms "
+            "unreachable), H6' every sequence count, F6 (bounded) normalisation total incl. single-symbol histograms, E4 ghost-sync (no Huffman table is kept "
+            "that the decoder did not receive), E8 literal header widths. Three defects of this class were found and repaired (F3 F4 F5 F8).", "DESIGN.md 4 C16, Part II 10"),
+    "C17": ("other", "BOUNDED model checking of contracts on the real matcher (Kani, debug-assertion profile so the crate's own concat_window ghost checks are "
+            "obligations): 2-3 blocks of <= 6 bytes over a 2-letter alphabet, 8-slot suffix store, window 9/12 bytes, eviction and reset: reported sequences tile "
+            "the block, replaying them reproduces it, offsets within retained data and max window, match length >= 5. Not a proof for all sizes.", "DESIGN.md 4 C17"),
+    "C18": ("proof", "IO1 (Kani, built with --no-default-features, bounded buffers): the no_std read_exact / Read for &[u8], &mut T, Take / write_all / Write impls "
+            "satisfy the documented contracts of the std items they replace (Interrupted retried, EOF -> UnexpectedEof, partial writes, WriteZero equivalent); "
+            "E5 under !hash: no flag, no trailer, same blocks. Byte-identity of whole outputs across builds is the substitutability argument in DESIGN.md.", "DESIGN.md 4 C18"),
 }
 
 PENDING = {}
